@@ -1,6 +1,8 @@
 """C02 Every reported target closes the first-law energy balance (E-mode)."""
 from __future__ import annotations
 
+import itertools
+
 from mc import alphabet as A
 from mc import pipeline as P
 from mc import service as S
@@ -38,6 +40,15 @@ def cases(tier, inst):
                     yield {"streams": ms, "zones": labels, "uset": ui}
 
 
+def op_cases(tier, inst):
+    """unit-operation targeting switched on: every stream is its own operation zone with its own record"""
+    for ms in P.stream_multisets(inst, 3, 3 if tier == "thorough" else 2, cps=(1, 2), dts=(1,), iso=True, min_n=2):
+        n = len(ms)
+        for zones in ([["A"] * n] + ([["A", "B"] + ["A"] * (n - 2)] if n >= 2 else [])):
+            for ui in (0, 3, 11):
+                yield {"streams": ms, "zones": zones, "uset": ui, "options": {"DO_DIRECT_OPERATION_TARGETING": True}}
+
+
 def cause(case, z, t, kind, hot, cold):
     """Narrow cause class for known-finding matching."""
     iso_ext = ""
@@ -47,7 +58,7 @@ def cause(case, z, t, kind, hot, cold):
 def run(case, res: Result):
     tier_sets = P.utility_sets(tuple(case.get("inst", ())) or _INST[0], 3, "large")
     streams = [tuple(s) for s in case["streams"]]
-    prob = A.problem(streams, case["zones"], utilities=tier_sets[case["uset"]])
+    prob = A.problem(streams, case["zones"], utilities=tier_sets[case["uset"]], options=case.get("options"))
     out, master = S.run(prob)
     pairs = S.aligned_records(out, master)
     if pairs is None:
@@ -58,7 +69,7 @@ def run(case, res: Result):
     outcome = []
     for path, z, key, t, r in pairs:
         kind = S.kind_of_record(key)
-        idxs = S.expected_members(prob, path)
+        idxs = S.members_of_zone(prob, path, z)
         hot, cold = S.duties(prob, idxs)
         eps = 1e-6 * max(hot + cold, 1e-9)
         Qh, Qc, Qr = S.num(r.Qh), S.num(r.Qc), S.num(r.Qr)
@@ -106,7 +117,7 @@ _INST = [None]
 
 def _cases(tier, inst):
     _INST[0] = inst
-    for c in cases(tier, inst):
+    for c in itertools.chain(cases(tier, inst), op_cases(tier, inst)):
         c["inst"] = list(inst)
         yield c
 
